@@ -38,6 +38,7 @@ Inductive stage :=
 | StAlloc
 | StNoContent
 | StNotesRead (off : N)
+| StNotesExtent
 | StStrtab
 | StFlatRead (pos : N) | StFlatOffset (pos : N) | StFlatSize (pos : N) | StFlatType | StFlatVersion
 | StPageSize (v : N)
